@@ -261,6 +261,21 @@ def run(replay=None):
         ck.violation("correspondence", f"model codec and implementation disagree at stage {nm} ({len(corr_bad)} cases)",
                      {"stage": nm, "impl": str(hi)[:1500], "model": str(mi)[:1500], "program": p.text(),
                       "theorem_or_stage": f"correspondence:{nm}"}, no_input=True)
+    # ---- golden archives: files written by the pinned version must keep loading as the same expressions ----
+    gold = [l.rstrip("\n").split(" ", 2) for l in open(os.path.join(common.VERIF, "check", "corpus", "c08_golden.txt"))
+            if l.strip() and not l.startswith("#")]
+    gtxt = "".join(f"case {cid}\nloadbytes {hx}\nend\n" for cid, hx, _ in gold)
+    rc_g, gout_, _ = common.run_prog(os.path.join(common.BUILD, "cxx", "bin", "expr"), gtxt, timeout=300)
+    GH = parse_out(gout_)
+    ngold = 0
+    for cid, hx, want in gold:
+        got = (GH.get((cid, 1)) or [""])[0]
+        if got == f"LB n=1 dump={want}":
+            ngold += 1
+        else:
+            ck.violation("golden", "an archive written by the pinned version no longer loads as the expression it held",
+                         {"archive_hex": hx, "expected_dump": want, "loaded": got, "case": cid})
+    ck.coverage["golden_archives_loaded"] = ngold
     if not proof["ok"]:
         ck.violation("proof", "Properties_C08.v no longer checks (opcode table changed or codec theorem broken)",
                      {"theorem_or_file": proof["file"], "log": proof["log"][-3000:], "translators": rep}, no_input=True)
